@@ -84,8 +84,11 @@ impl BodyWriter {
                 let mut input_used = 0;
 
                 if input.is_empty() {
-                    self.finish(w);
-                    self.ended = true;
+                    // The body is only ended once the end marker has been written,
+                    // and the end marker is written exactly once.
+                    if !self.ended && self.finish(w) {
+                        self.ended = true;
+                    }
                 } else {
                     // The chunk size might be smaller than the entire input, in which case
                     // we continue to send chunks frome the same input.
